@@ -507,6 +507,21 @@ func init() {
 			in.memBufOf(a[0]).data = NF{}
 			return nil
 		},
+		"(*bytes.Reader).Reset": func(in *Interp, fn *ssa.Function, a []Value) Value {
+			mb := in.memBufOf(a[0])
+			b := a[1].(BytesV)
+			mb.data, mb.src = in.bytesContent(b), b.o
+			return nil
+		},
+		"(*bytes.Reader).Len": func(in *Interp, fn *ssa.Function, a []Value) Value {
+			return IntV{in.p.lenOf(in.memBufOf(a[0]).data)}
+		},
+		"(*bufio.Reader).Reset": func(in *Interp, fn *ssa.Function, a []Value) Value {
+			r := in.bufReaderOf(a[0])
+			r.src, r.buffered, r.err, r.lastByte = a[1].(IfaceV), NF{}, nil, nil
+			r.gen++ // views handed out before are gone
+			return nil
+		},
 		"(*bytes.Buffer).Read":    memRead,
 		"(*bytes.Reader).Read":    memRead,
 		"(*strings.Reader).Read":  memRead,
